@@ -1389,4 +1389,57 @@ mod tests {
 #[allow(unused_imports, missing_docs, dead_code, unreachable_pub)]
 pub mod verif {
     use super::*;
+
+    /// What the pruner sends to the `Daser` (public mirror of the crate-private [`DaserCmd`]).
+    #[derive(Debug)]
+    pub enum VerifDaserCmd {
+        UpdateHighestPrunableHeight(u64),
+        UpdateNumberOfPrunableBlocks(u64),
+        WantToPrune(u64, oneshot::Sender<bool>),
+    }
+
+    /// A `Daser` without worker (same construction as the `#[cfg(test)]` `Daser::mocked`).
+    pub struct VerifMockDaser(pub(crate) Arc<Daser>);
+
+    /// Receiving end of the mocked `Daser`'s command channel.
+    pub struct VerifMockDaserHandle {
+        cmd_rx: mpsc::Receiver<DaserCmd>,
+    }
+
+    /// Must be called inside a tokio runtime (spawns the fake join handle).
+    pub fn mocked_daser() -> (VerifMockDaser, VerifMockDaserHandle) {
+        let (cmd_tx, cmd_rx) = mpsc::channel(16);
+        let cancellation_token = CancellationToken::new();
+        let join_handle = spawn(async {});
+        let daser = Daser {
+            cmd_tx,
+            cancellation_token,
+            join_handle,
+        };
+        (VerifMockDaser(Arc::new(daser)), VerifMockDaserHandle { cmd_rx })
+    }
+
+    fn mirror(cmd: DaserCmd) -> VerifDaserCmd {
+        match cmd {
+            DaserCmd::UpdateHighestPrunableHeight { value } => {
+                VerifDaserCmd::UpdateHighestPrunableHeight(value)
+            }
+            DaserCmd::UpdateNumberOfPrunableBlocks { value } => {
+                VerifDaserCmd::UpdateNumberOfPrunableBlocks(value)
+            }
+            DaserCmd::WantToPrune { height, respond_to } => {
+                VerifDaserCmd::WantToPrune(height, respond_to)
+            }
+        }
+    }
+
+    impl VerifMockDaserHandle {
+        /// next command; `None` when every sender is gone
+        pub async fn recv(&mut self) -> Option<VerifDaserCmd> {
+            self.cmd_rx.recv().await.map(mirror)
+        }
+        pub fn try_recv(&mut self) -> Option<VerifDaserCmd> {
+            self.cmd_rx.try_recv().ok().map(mirror)
+        }
+    }
 }
